@@ -344,7 +344,10 @@ def run(ctx):
                 ok = {x.get("src") for x in r["recs"] if x.get("kind") == "summary"}
                 if ok != {"concurrent", "stress"}:
                     soft(ctx, "concurrent child for %s did not finish both tests: %s\n%s" % (s, ok, r["output"][-2000:]))
-            all_conc.append((s, r["race"], split_histories(r["trace"])))
+            hs = split_histories(r["trace"])
+            if crashed and hs:
+                hs = hs[:-1]  # the child died mid-run: its last recorded history may be cut short
+            all_conc.append((s, r["race"], hs))
 
     # ------------------------------------------------------------------ stage 4: TLC searches for linearizations (code -> spec)
     seq_hist = split_histories(vlib.read_ndjson(trace))
@@ -384,7 +387,7 @@ def run(ctx):
     if not ctx.violations and not ctx.known_seen:
         if n_conc < 7 * 2 * 40:
             raise vlib.Inconclusive("only %d concurrent histories recorded" % n_conc)
-        if n_overlap * 5 < n_conc:
+        if n_overlap * 10 < n_conc:
             raise vlib.Inconclusive("only %d of %d concurrent histories had overlapping calls" % (n_overlap, n_conc))
 
     # ------------------------------------------------------------------ evidence
@@ -406,8 +409,8 @@ def run(ctx):
         "evaluations": summ["steps"] + summ["random_ops"] + lin_events,
         "distinct_nontrivial": summ["distinct_prefixes"],
         "rule": "evaluations = operations executed on the real stores whose result was compared with the model (replayed TLC behaviours step by step, plus recorded histories validated by TLC); distinct_nontrivial = distinct (store, operation-history prefix, result) triples, counted in a set by the harness",
-        "exhaustive": True,
-        "exhaustive_scope": "model: complete reachable graph and all sequences at the bounds of Stores.tla (Bounds); real stores: every (state, operation) edge of that graph and every bounded sequence replayed; concurrent schedules sampled",
+        "exhaustive": False,
+        "exhaustive_scope": "exhaustive at the bounds of Stores.tla (Bounds) for the sequential part: complete reachable model graph, all bounded operation sequences, and every (state, operation) edge and bounded sequence replayed on the real stores; concurrent schedules are sampled, hence exhaustive=false",
         "behaviours_replayed": summ["behaviours"], "behaviours_by_source": n_src,
         "concurrent_histories": n_conc, "concurrent_histories_overlapping": n_overlap,
         "stress_ops": stress_ops, "race_detector_runs": len(STORES),
